@@ -151,6 +151,9 @@ class FakeNet:
             raise ConnectionResetError(errno.ECONNRESET, "Connection reset by peer")
         if w == "pipe":
             raise BrokenPipeError(errno.EPIPE, "Broken pipe")
+        if w == "eintr":
+            # a send interrupted by a signal (a socket layer that does not resume it): how much went out is unknown to the caller
+            raise InterruptedError(errno.EINTR, "Interrupted system call")
         if w == "sslerror":
             raise _ssl.SSLError("handshake failure")
         if w == "valueerror":
